@@ -605,6 +605,11 @@ class Exec:
                            'upg_state': self.upg_state(s),
                            'poll_pending': any(not q.done for q in s.polls)})
 
+    def op_app_burst(self, a):
+        for d in a['data']:
+            self.op_app_send({'s': a['s'], 'data': d, 'settle': True})
+            self.settle()
+
     def model_state(self, s):
         """'live' | 'ended' | 'rejected' | 'unopened' as the handler log tells it right now; None
         when the world is not quiet (the state the call will meet is then unknown)."""
@@ -851,7 +856,8 @@ class Drawer:
                  else 0)]
         if have:
             for k in ('poll', 'post', 'upg_connect', 'ws_send', 'ws_close', 'ws_fail', 'pong',
-                      'app_send', 'app_disconnect', 'api', 'vanish', 'request', 'probe_step'):
+                      'app_send', 'app_burst', 'app_disconnect', 'api', 'vanish', 'request',
+                      'probe_step'):
                 opts.append((k, W.get(k, 0)))
         opts += [('advance', W.get('advance', 2)), ('fault', W.get('fault', 0))]
         op = self.choose(opts)
@@ -1008,6 +1014,18 @@ class Drawer:
         self.ex.seq += 1
         return {'op': 'app_send', 's': i,
                 'data': rm.tag(server_payload(self.draw, s.ord, self.ex.seq))}
+
+    def a_app_burst(self):
+        """Many application sends one after the other (each returns before the next is made):
+        more than one polling payload may carry."""
+        i = self.session_index()
+        s = self.ex.sessions[i]
+        n = self.draw(st.sampled_from([15, 16, 17, 18, 20, 33, 40]))
+        data = []
+        for _ in range(n):
+            self.ex.seq += 1
+            data.append(rm.tag('S%d.%d~' % (s.ord, self.ex.seq)))
+        return {'op': 'app_burst', 's': i, 'data': data}
 
     def a_app_disconnect(self):
         if self.draw(st.integers(0, 9)) < self.profile.get('disconnect_all_pct', 1):
